@@ -76,9 +76,13 @@ type local struct {
 	distinct map[uint64]struct{}
 	viols    []viol
 	samples  []any
+	// see setWorld.algebraDone
+	algebraDone map[string]struct{}
 }
 
-func newLocal() *local { return &local{counts: map[string]int{}, distinct: map[uint64]struct{}{}} }
+func newLocal() *local {
+	return &local{counts: map[string]int{}, distinct: map[uint64]struct{}{}, algebraDone: map[string]struct{}{}}
+}
 
 func (l *local) viol(fp, what string, rec any) {
 	if len(l.viols) < 200 {
@@ -162,6 +166,11 @@ type setWorld struct {
 	s     ds.Set[uint32]
 	order []uint32 // model: live elements in first-insertion order
 	uni   int
+	qsalt int // rotates the subsets used by the algebra queries
+	// algebraDone (exhaustive mode) remembers for which (last operation class, resulting order) the algebra
+	// methods, which only depend on the current contents, were already compared by this worker
+	algebraDone map[string]struct{}
+	lastClass   string
 }
 
 func newSetWorld(uni int) *setWorld { return &setWorld{s: ds.NewSet[uint32](), uni: uni} }
@@ -296,9 +305,11 @@ func (w *setWorld) apply(o sop, full bool) (string, string) {
 				w.order = append([]uint32{}, argElems...)
 			}
 			got := ret.ToSlice()
-			if !eqAsSets(got, want) {
+			if !eqAsSets(w.order, argElems) {
+				bad("contents", "Replace(%v) on %v left the set as %v", argElems, before, w.s.ToSlice())
+			} else if !eqAsSets(got, want) {
 				kind := "returned-set"
-				if o.Self == "" && eqAsSets(got, before) {
+				if eqAsSets(got, before) {
 					kind = "returns-retained-elements" // the whole previous content instead of the removed elements
 				}
 				bad(kind, "Replace(%v) on %v returned %v, elements whose membership changed (removed): %v", argElems, before, got, want)
@@ -350,6 +361,7 @@ func (w *setWorld) apply(o sop, full bool) (string, string) {
 		return fp, what
 	}
 	if full {
+		w.lastClass = o.class()
 		w.queries(bad)
 	}
 	return fp, what
@@ -360,6 +372,7 @@ var errStop = errors.New("stop")
 // queries compares every read-only method with the model.
 func (w *setWorld) queries(bad func(kind, f string, a ...any)) {
 	s, m := w.s, w.order
+	w.qsalt++
 	p := try(func() {
 		if s.Size() != len(m) || s.IsEmpty() != (len(m) == 0) {
 			bad("size", "Size()=%d IsEmpty()=%v, model %v", s.Size(), s.IsEmpty(), m)
@@ -421,8 +434,18 @@ func (w *setWorld) queries(bad func(kind, f string, a ...any)) {
 		if !eqSlice(ev.ToSlice(), wantEv) {
 			bad("filter", "Filter(even)=%v on %v", ev.ToSlice(), m)
 		}
+		if w.algebraDone != nil {
+			k := w.lastClass + fmt.Sprint(m)
+			if _, done := w.algebraDone[k]; done {
+				return
+			}
+			w.algebraDone[k] = struct{}{}
+		}
 		// algebra against every subset of the universe (as argument sets in ascending order)
 		for mask := 0; mask < 1<<w.uni; mask++ {
+			if w.uni > 4 && (mask*7+w.qsalt)%8 != 0 { // large universe: an eighth of the subsets per step, rotating
+				continue
+			}
 			var x []uint32
 			for e := 0; e < w.uni; e++ {
 				if mask&(1<<e) != 0 {
@@ -459,8 +482,9 @@ func (w *setWorld) queries(bad func(kind, f string, a ...any)) {
 }
 
 // runSetSeq replays ops; checks with all queries from step checkFrom on.
-func runSetSeq(uni int, ops []sop, checkFrom int) (step int, fp, what string, w *setWorld) {
+func runSetSeq(uni int, ops []sop, checkFrom int, algebraDone map[string]struct{}) (step int, fp, what string, w *setWorld) {
 	w = newSetWorld(uni)
+	w.algebraDone = algebraDone
 	for i, o := range ops {
 		if fp, what = w.apply(o, i >= checkFrom); fp != "" {
 			return i, fp, what, w
@@ -516,7 +540,7 @@ func setAlphabet(uni int) []sop {
 }
 
 func (l *local) setOne(uni int, ops []sop) bool {
-	step, fp, what, w := runSetSeq(uni, ops, len(ops)-1)
+	step, fp, what, w := runSetSeq(uni, ops, len(ops)-1, l.algebraDone)
 	if step < len(ops)-1 {
 		return false
 	}
